@@ -389,6 +389,7 @@ func c02Derivations(w *W) {
 // thorough: all of D(1,2)).
 func mutants(w *W, f func(ss []sym)) {
 	ins := syms(sigmaCore...)
+	pair := syms("#c", "\n")
 	seen := map[string]bool{}
 	derivations(w.thorough(), func(name string, texts []string) {
 		if name == "WN" || name == "DH" {
@@ -429,6 +430,10 @@ func mutants(w *W, f func(ss []sym)) {
 				buf = append(append(append(buf[:0], base[:i]...), s), base[i:]...)
 				f(buf)
 			}
+			// insertion of a trailing comment together with the newline that ends it (the newline may be
+			// insignificant, a separator, or make the sentence ill-formed; the model decides)
+			buf = append(append(append(buf[:0], base[:i]...), pair...), base[i:]...)
+			f(buf)
 		}
 	})
 }
